@@ -289,9 +289,33 @@ pub struct CallStack {
     script_source_depth: usize,
     active_trap_signals: HashSet<traps::TrapSignal>,
     trap_delivery_suppress_count: usize,
+    /// Verification hook: identity of this call stack in trace events (fresh for every clone).
+    #[cfg(brush_verif)]
+    #[cfg_attr(feature = "serde", serde(default))]
+    verif_id: crate::verif::Identity,
 }
 
 impl CallStack {
+    /// Verification hook: identity and current depth of the call stack.
+    #[cfg(brush_verif)]
+    pub fn verif_state(&self) -> (u64, usize) {
+        (self.verif_id.0, self.frames.len())
+    }
+
+    /// Verification hook: records a frame push.
+    #[cfg(brush_verif)]
+    fn verif_pushed(&self, kind: &str) {
+        #[allow(clippy::cast_possible_wrap)]
+        crate::verif::event_s(
+            "frame_push",
+            &[
+                ("cs", crate::verif::i(self.verif_id.0)),
+                ("depth", self.frames.len() as i64),
+            ],
+            &[("kind", kind)],
+        );
+    }
+
     /// Creates a formatter for this call stack with the given options.
     ///
     /// # Arguments
@@ -389,6 +413,15 @@ impl CallStack {
     /// returns `None`; otherwise, returns the removed call frame.
     pub fn pop(&mut self) -> Option<Frame> {
         let frame = self.frames.pop_front()?;
+        #[cfg(brush_verif)]
+        #[allow(clippy::cast_possible_wrap)]
+        crate::verif::event(
+            "frame_pop",
+            &[
+                ("cs", crate::verif::i(self.verif_id.0)),
+                ("depth", self.frames.len() as i64),
+            ],
+        );
 
         if frame.frame_type.is_function() {
             self.func_call_depth = self.func_call_depth.saturating_sub(1);
@@ -467,6 +500,8 @@ impl CallStack {
             current: None, // TODO(source-info): fill this out
             entry: None,   // TODO(source-info): fill this out
         });
+        #[cfg(brush_verif)]
+        self.verif_pushed("script");
 
         if matches!(call_type, ScriptCallType::Source) {
             self.script_source_depth += 1;
@@ -495,6 +530,8 @@ impl CallStack {
             current: None, // TODO(source-info): fill this out
             entry: None,   // TODO(source-info): fill this out
         });
+        #[cfg(brush_verif)]
+        self.verif_pushed("trap");
 
         self.active_trap_signals.insert(signal);
     }
@@ -509,6 +546,8 @@ impl CallStack {
             current: None, // TODO(source-info): fill this out
             entry: None,   // TODO(source-info): fill this out
         });
+        #[cfg(brush_verif)]
+        self.verif_pushed("eval");
     }
 
     /// Pushes a new command string frame onto the stack.
@@ -521,6 +560,8 @@ impl CallStack {
             current: None, // TODO(source-info): fill this out
             entry: None,   // TODO(source-info): fill this out
         });
+        #[cfg(brush_verif)]
+        self.verif_pushed("cmdstr");
     }
 
     /// Pushes a new interactive session frame onto the stack.
@@ -533,6 +574,8 @@ impl CallStack {
             current: None, // TODO(source-info): fill this out
             entry: None,   // TODO(source-info): fill this out
         });
+        #[cfg(brush_verif)]
+        self.verif_pushed("interactive");
     }
 
     /// Pushes a new function call frame onto the stack.
@@ -559,6 +602,8 @@ impl CallStack {
             current: None, // TODO(source-info): fill this out
             current_line_offset: 0,
         });
+        #[cfg(brush_verif)]
+        self.verif_pushed("function");
 
         self.func_call_depth += 1;
     }
